@@ -8,6 +8,8 @@
              terminator fits the capacity alloc() guarantees for that branch, and snprintf's size argument does not exceed it
  R-NEGATE    integer-to-text helpers never negate the minimum value of their type (guarded special case)
  C03.printf  the vsnprintf retry loops of the formatting constructors treat a return value equal to the buffer size as truncated
+ C03.keep    every growth path of String::resize that keeps the content copies at least length()+1 bytes (the terminator travels with
+             the text): evaluated over a grid of (old length, requested length)
  Agreement with a byte-string model for search/replace/split/trim and the length/NUL invariant of every mutator are not decided."""
 import os
 import ir, q, alias
@@ -25,6 +27,7 @@ def run(ctx):
     check_width(ctx, prog)
     check_negate(ctx, prog)
     check_printf(ctx, prog)
+    check_resize_keep(ctx, prog)
     return __doc__.split('\n\n', 1)[1]
 
 
@@ -280,3 +283,40 @@ def check_printf(ctx, prog):
             ctx.check(bool(cmps) and not bad, 'C03.printf', f['pq'], role, fwhere(f, c['l']), 'n >= size is treated as truncated',
                       'the retry loop compares the vsnprintf result with the buffer size as `%s`: a result equal to the size (output truncated by one character) is accepted as complete' % (pe(bad[0]) if bad else 'nothing'))
     ctx.floor('C03.printf', n, 2)
+
+
+# ------------------------------------------------------------------ C03.keep
+
+def check_resize_keep(ctx, prog):
+    import bytesets
+    f = [g for g in prog.fn('asl::String::resize') if g.get('body')]
+    if not f:
+        raise AnalysisBroken('String::resize not found')
+    f = f[0]
+    ctx.analysed(f)
+    nparam = f['params'][0]
+    copies = [e for e in fn_exprs(f) if e.get('k') == 'call' and e.get('fn') in ('memcpy', 'memmove') and len(e.get('a', [])) == 3]
+    n = 0
+    for c in copies:
+        src = strip(c['a'][1])
+        if not (src.get('k') == 'mem' and src.get('f') in ('_str', '_space')):
+            continue
+        n += 1
+        bad = []
+        try:
+            for L in range(0, 6):
+                for N in range(L + 1, L + 40, 7):
+                    class Ev(bytesets.Evaluator):
+                        def ev(self, e):
+                            if e is not None and e.get('k') == 'mem' and e.get('f') == '_len':
+                                return L
+                            return bytesets.Evaluator.ev(self, e)
+                    got = Ev(prog, f, {nparam['id']: N}).ev(c['a'][2])
+                    ctx.evaluations += 1
+                    if got < L + 1:
+                        bad.append((L, N, got))
+            ctx.check(not bad, 'C03.keep', f['pq'], 'resize:kept content includes the terminator (copy from %s)' % src['f'], fwhere(f, c['l']), 'copies >= length()+1 bytes when growing',
+                      'growing a string of length %d to %d copies only %d byte(s) `%s` into the new buffer: the terminator is left behind and length() no longer equals the offset of the NUL' % (bad[0] + (pe(c['a'][2]),) if bad else (0, 0, 0, '')))
+        except bytesets.Undecidable as ex:
+            ctx.undecided('C03.keep', f['pq'], 'resize:kept content includes the terminator (copy from %s)' % src['f'], fwhere(f, c['l']), 'copy length not evaluable: %s' % ex)
+    ctx.floor('C03.keep', n, 2)
